@@ -471,9 +471,92 @@ func (b *bb) ctorTiming() {
 	b.note("join", "ctor-timing", before)
 }
 
+// C10 after a timeout flush: the ticker keeps its period.  Timeout 800 ms, inaccuracy 25 % (period
+// 200 ms), JoinSize 4, an unbuffered input, a consumer that is always ready.  The discipline first
+// sits idle for more than Timeout + period (a timeout "flush" of the empty buffer happens), then
+// five elements arrive at once: four leave as a full slice, the fifth must leave within
+// Timeout*(1+1/4) = 1 s after it was accepted (plus scheduling latency) although the input stays
+// open and silent.
+func (b *bb) tailAfterFlush() {
+	before := b.fails()
+	const tmo = 800 * time.Millisecond
+	const inacc = 25
+	kind := []string{"join v1", "join v2"}[b.cycle("tail-after-flush", 2)]
+	in := make(chan int)
+	var output <-chan []int
+	var stop func()
+	if kind == "join v1" {
+		d, err := j1.New(j1.Opts[int]{Ctx: context.Background(), Input: in, JoinSize: 4, Timeout: tmo, TimeoutInaccuracy: inacc})
+		if err != nil {
+			b.fail("C10 v1 join.New: %v", err)
+			return
+		}
+		output, stop = d.Output(), d.Stop
+	} else {
+		d, err := j2.New(j2.Opts[int]{Input: in, JoinSize: 4, Timeout: tmo, TimeoutInaccuracy: inacc})
+		if err != nil {
+			b.fail("C10 join.New: %v", err)
+			return
+		}
+		output, stop = d.Output(), func() {}
+	}
+	type rec struct {
+		sl []int
+		at time.Time
+	}
+	recs := make(chan rec, 8)
+	go func() {
+		for sl := range output {
+			recs <- rec{append([]int(nil), sl...), time.Now()}
+		}
+		close(recs)
+	}()
+	time.Sleep(tmo + tmo/4 + tmo/10) // idle: the first timeout test has succeeded by now
+	cn := startCanary()
+	var accepted time.Time
+	for x := 1; x <= 5; x++ {
+		in <- x
+		accepted = time.Now() // the write of an unbuffered channel returns when the element was taken
+	}
+	bound := tmo + tmo/4 + 200*time.Millisecond
+	var tail time.Duration
+	got := 0
+	deadline := time.After(4 * tmo)
+wait:
+	for got < 5 {
+		select {
+		case r, ok := <-recs:
+			if !ok {
+				break wait
+			}
+			got += len(r.sl)
+			if got == 5 {
+				tail = r.at.Sub(accepted)
+			}
+		case <-deadline:
+			break wait
+		}
+	}
+	lag := cn.lag()
+	if got < 5 {
+		b.fail("C10 %s after a timeout flush: the element accepted last (input open and silent afterwards) was not delivered within %v; Timeout %v, inaccuracy %d%%, bound Timeout*(1+1/4) = %v", kind, 4*tmo, tmo, inacc, tmo+tmo/4)
+	} else if tail > bound+5*lag {
+		b.fail("C10 %s after a timeout flush: an element stayed %v inside the discipline while the input was open and silent; Timeout %v, inaccuracy %d%%: bound Timeout*(1+1/4) = %v (+ %v of slack for scheduling, measured lag %v)", kind, tail, tmo, inacc, tmo+tmo/4, 200*time.Millisecond+5*lag, lag)
+	}
+	close(in)
+	stop()
+	for range recs {
+	}
+	b.leakProbe("termination of " + kind + " after the tail probe")
+	b.note("join", "tail-after-flush "+kind, before)
+}
+
 func (b *bb) scenarioJoin() {
 	if b.cycle("join-rejected", 2) == 0 {
 		b.rejectedCtor()
+	}
+	if b.cycle("join-tail", 4) == 2 {
+		b.tailAfterFlush()
 	}
 	if b.cycle("join-ctor-timing", 4) == 1 {
 		b.ctorTiming()
@@ -1247,7 +1330,9 @@ loop:
 	// output; what can make receive times denser than send times is only what sat in the
 	// output buffer (capacity 1+cap(input)) while the consumer was late, plus the one whose
 	// timestamp was delayed: at most Q*(floor(W/I)+2) + cap(output) + 2 in any window W.
-	{
+	// (not for a "practically unlimited" Quantity: the bound exceeds any number of elements, and
+	// computing it in int would wrap)
+	if q <= 1<<32 {
 		W := interval / 2
 		bufferBurst := false
 		allowed := int(q)*(int(W/interval)+2) + (1 + inCap) + 2
@@ -1298,6 +1383,69 @@ loop:
 	}
 	b.leakProbe("termination of limit")
 	b.note("limit", fmt.Sprintf("Q=%d I=%v N=%d cap=%d %s", q, interval, n, inCap, pattern), before)
+	if pattern == "busy-consumer" {
+		b.limitSlowConsumer()
+	}
+}
+
+// C12 with a consumer that is the bottleneck: every portion takes about as long as Interval (or
+// longer) because the consumer needs that long, so next to no pause is due and the whole run lasts
+// as long as the consumer is busy (plus two Intervals and scheduling slack) - the limiter adds
+// nothing on top.
+func (b *bb) limitSlowConsumer() {
+	before := b.fails()
+	q := uint64(6 + b.r.Intn(5))
+	interval := time.Duration(40+b.r.Intn(20)) * time.Millisecond
+	// the consumer's time per element: a portion takes a little more than one Interval (the regime
+	// in which a limiter that does not count the time it was held up pauses after every portion)
+	per := 11 * interval / time.Duration(10*q)
+	n := 16 * int(q)
+	in := make(chan int) // unbuffered: the output has one slot
+	cn := startCanary()
+	t0 := time.Now()
+	d, err := limit.New(limit.Opts[int]{Input: in, Limit: limit.Rate{Interval: interval, Quantity: q}})
+	if err != nil {
+		cn.lag()
+		b.fail("C12 limit.New: %v", err)
+		return
+	}
+	go func() {
+		for i := 0; i < n; i++ {
+			in <- i
+		}
+		close(in)
+	}()
+	var busy time.Duration
+	got := 0
+	deadline := time.After(30 * time.Second)
+loop:
+	for {
+		select {
+		case x, open := <-d.Output():
+			if !open {
+				break loop
+			}
+			if x != got {
+				b.fail("C12 limit (slow consumer): element %d received at position %d", x, got)
+			}
+			got++
+			s0 := time.Now()
+			time.Sleep(per)
+			busy += time.Since(s0)
+		case <-deadline:
+			b.fail("C12 limit (slow consumer): the output was not closed within 30s")
+			break loop
+		}
+	}
+	total := time.Since(t0)
+	lag := cn.lag()
+	if got != n {
+		b.fail("C12 limit (slow consumer): %d of %d elements were delivered before the output closed", got, n)
+	} else if bound := busy + 2*interval + 100*time.Millisecond + 3*lag; total > bound {
+		b.fail("C12 limit (slow consumer): %d elements took %v although the consumer was busy for %v only (it needs %v per element: a portion of %d takes about as long as Interval %v or longer, next to no pause is due): bound %v - the limiter throttles below the configured rate", n, total, busy, per, q, interval, bound)
+	}
+	b.leakProbe("termination of limit (slow consumer)")
+	b.note("limit", fmt.Sprintf("slow-consumer Q=%d I=%v N=%d", q, interval, n), before)
 }
 
 // scenarioJoinShared: the input channel of a v2 join discipline has a second reader (another
